@@ -429,6 +429,12 @@ def check(ctx):
                     continue
                 cond = [name for name, pred in table.items() if pred(par.test)]
                 if not cond:
+                    # the test may read a flag holding the condition (a predicate helper, inlined)
+                    from .common import deref_expr as _dx6
+
+                    dt = _dx6(prog, opt, par.test)
+                    cond = [name for name, pred in table.items() if pred(dt)]
+                if not cond:
                     ctx.fail(opt, s, f"a termination message is assigned under '{canon(par.test)[:70]}', which is none of the four stopping conditions (budget, max_iter, tol_mesh, stall)", construct=f"message under {canon(par.test)[:60]}")
                     continue
                 sets = any(isinstance(x, ast.Assign) and isinstance(x.value, ast.Constant) and x.value.value is True for x in par.body)
